@@ -51,7 +51,7 @@ impl TransportFn<()> for Run {
             }
             let before = returned;
             with(|w| w.personality::<ConsoleDev>().publish_marks.clear());
-            let k = choose(14);
+            let k = choose(15);
             let (delivered, undelivered) = with(|w| {
                 let d = w.personality::<ConsoleDev>();
                 (d.written.len(), d.undelivered())
@@ -128,6 +128,11 @@ impl TransportFn<()> for Run {
                         }
                         Err(e) => violation("console-error", "fill_buf", format!("{e:?}")),
                     }
+                }
+                13 => {
+                    // consuming nothing is always allowed, whatever is or is not buffered
+                    BufRead::consume(&mut con, 0);
+                    oplog(|| "consume(0)".to_string());
                 }
                 9 => {
                     let r = ReadReady::read_ready(&mut con);
